@@ -178,6 +178,18 @@ def c01(tier):
                                                                    "hi" if base else "lo"),
                                          structured=structured, use_cache=cache, base=base)
                     scen_steps.append(sc)
+    # environment dimension: file size (a large file of ordinary code that carries the tree's largest IDs, in any
+    # order) and where TMPDIR is
+    for structured in (False, True):
+        for cache, lock in ((None, None), (False, 2), (True, 9)):
+            for nbytes in ((400000, 1600000) if tier == "thorough" else (900000,)):
+                scen_steps.append(rl.Scenario("large-file-%d" % nbytes, {"big.rs": [S(11, ref=1), S(12, ref=7), S(13, ref=3)],
+                                                                          "small.rs": [S(21), S(22)]},
+                                              lock=lock, use_cache=cache, structured=structured, pad=nbytes, pad_mode="code",
+                                              names=["big.rs", "small.rs"]))
+            scen_steps.append(rl.Scenario("unordered-ids", {"f1.rs": [S(11, ref=1), S(12, ref=7), S(13, ref=3), S(14)],
+                                                            "f2.rs": [S(21), S(22, ref=5), S(23, ref=2)]},
+                                          lock=lock, use_cache=cache, structured=structured))
     # run them (one edit run each), in parallel
     import multiprocessing
     jobs = [{"binary": binary, "scen": sc, "steps": [("edit", "")], "follow": None} for sc in scen_steps]
@@ -234,6 +246,13 @@ def c02(tier):
     for sc in scens:
         K, n = rl.sweep(binary, sc, "edit", kinds, batch, v, follow="c02")
         log("[sweep] %s: %d operations, %d histories" % (sc.name, K, n))
+    # environment dimension: TMPDIR on another file system / not existing
+    for structured in (False, True):
+        for env in ({"tmp_on_other_fs": True}, {"tmp_missing": True}):
+            for lock in (None, 10):
+                sc = rl.Scenario("env-" + "-".join(env), {"f1.rs": [S(11), S(12, ref=3)], "f2.rs": [S(21), S(22)]},
+                                 lock=lock, structured=structured, **env)
+                rl.planned_runs(binary, sc, [[("edit", "")]], batch, v, follow="c02", sigbase=dict(env))
     batch.judge(v, {"C02"})
     v.cov["rule"] = ("(a) behaviours of BreadlogRun (developer edits and runs) obtained by TLC simulation and replayed end to "
                      "end; (b) every operation k of an edit run x {EIO, SIGINT, SIGTERM, kill before, kill after} followed by "
@@ -265,6 +284,11 @@ def c04(tier):
     for cc in ("missing", "invalid", "nosourcedir", "sourcedirfile", "noinscope"):
         sc = rl.Scenario("cfgerr-" + cc, {"f1.rs": [S(11)]}, lock=3, config_class=cc, extra_files=EXTRA)
         rl.planned_runs(binary, sc, [[("check", "")]], batch, v, sigbase={"config_class": cc})
+    # TMPDIR names a directory that does not exist: nothing may be created there either
+    for structured in (False, True):
+        for tree in ({"f1.rs": [S(11), S(12, ref=3)]}, {"f1.rs": [S(11, ref=1)]}):
+            sc = rl.Scenario("tmpdir-missing", tree, lock=5, structured=structured, tmp_missing=True, extra_files=EXTRA)
+            rl.planned_runs(binary, sc, [[("check", "")]], batch, v, sigbase={"tmp_missing": True})
     kinds = ["EIO", "EACCES", "TERM", "INT", "kill_after"] if tier == "thorough" else ["EIO", "TERM", "kill_after"]
     for structured in (False, True):
         for sc in rl.small_trees(structured=structured, lock=5):
@@ -339,6 +363,13 @@ def c05(tier):
             pk.finish()
             packs.append((pk, mode == "structured"))
     cs.run_cases(binary, None, v, {"C05"}, "first-line", packs=packs, relabel=relabel)
+    # counts at the width of an exit status: 255, 256, 257, 512 statements lacking a reference
+    batch3 = rl.Batch()
+    for nmiss in (255, 256, 257, 512):
+        tree = {"f1.rs": [S(1000 + i) for i in range(nmiss // 2)], "f2.rs": [S(5000 + i) for i in range(nmiss - nmiss // 2)]}
+        sc = rl.Scenario("missing-%d" % nmiss, tree, opaque=False)
+        rl.planned_runs(binary, sc, [[("check", ""), ("edit", ""), ("check", "")]], batch3, v)
+    batch3.judge(v, {"C05"})
     # (e) the verdict under a stop request: whatever was scanned, missing references must not yield exit 0
     batch2 = rl.Batch()
     for structured in (False, True):
@@ -391,6 +422,9 @@ def c06(tier):
                              lock=lock, base=hi, maxid=1000, structured=structured)
             rl.planned_runs(binary, sc, [[("check", ""), ("edit", ""), ("check", ""), ("edit", ""), ("lock", None)]], batch, v,
                             follow="readback", sigbase={"embedding": "high"})
+    # ... and also when a stop request arrived on the way
+    for sc in rl.small_trees(structured=False, lock=40) + rl.small_trees(structured=True):
+        rl.sweep(binary, sc, "edit", ["TERM", "INT"] if tier == "thorough" else ["TERM"], batch, v, follow="fixpoint")
     # an edit run that exits 0 must leave a tree that passes --check, also when some operation failed on the way
     for structured in (False, True):
         for sc in rl.small_trees(structured=structured):
